@@ -1,5 +1,22 @@
 import Ptn.C07.Model
-/-! Line-protocol handler for the C07 model (core Lean only). -/
+import Ptn.C06.Driver
+/-! Line-protocol handler for C07 (core Lean only).
+  sweepend twosite <start> <last> <segs…>   (delegates to the C06 handler)
+  kept <k> <D|inf>                          → keptCount
+-/
 namespace Ptn.C07
-def handle (args : List String) : String := "bad-op"
+
+def handle (args : List String) : String :=
+  match args with
+  | "sweepend" :: _ => Ptn.C06.handle args
+  | ["kept", k, d] =>
+    match k.toNat? with
+    | none => "bad-op"
+    | some kk =>
+      if d = "inf" then toString (keptCount kk none) else
+        match d.toNat? with
+        | some dd => if dd = 0 then "bad-op" else toString (keptCount kk (some dd))
+        | none => "bad-op"
+  | _ => "bad-op"
+
 end Ptn.C07
